@@ -60,17 +60,24 @@ def run(ctx):
         ev2 = vf.read_ndjson(t2)
         again = {(ev2[r["l"] - 1]["h"], ev2[r["l"] - 1]["ev"], ev2[r["l"] - 1]["q"] or ev2[r["l"] - 1]["rid"]) for r in rj2}
         seen = set()
-        for rj in rejects[:60]:
+        lost = []
+        for rj in rejects[:200]:
             e = events[rj["l"] - 1]
             k = (e["h"], e["ev"], e["q"] or e["rid"])
             if k in seen:
                 continue
             seen.add(k)
             if k not in again:
-                raise vf.Inconclusive("rejection in history %d (%s %s) did not reproduce" % (e["h"], e["ev"], str(k[2])[:80]))
+                # state that depends on the scheduler (a sync.Pool) need not misbehave on the same query twice: only
+                # the rejections that DO come back are reported; if none does, the run is inconclusive (below)
+                lost.append("history %d (%s %s)" % (e["h"], e["ev"], str(k[2])[:80]))
+                continue
             ctx.report("history %d, event %s q=%s: answer %s but earlier/fresh answer %s" % (e["h"], e["ev"], e["q"] or e["rid"], e["a"][:300], str(rj["spec"])[:300]),
                        {"reexec": ["drive-history"], "history": e["h"], "histories": nh, "len": hl, "seed": ctx.seed, "event": e, "spec": rj["spec"]},
                        {"cause": e["ev"]})
+        ctx.extra["rejections_not_reproduced"] = len(lost)
+        if lost and not ctx.violations:
+            raise vf.Inconclusive("%d rejected events, none reproduced in a second run, e.g. %s" % (len(lost), lost[0]))
 
 
 def replay(ctx, path):
